@@ -214,6 +214,9 @@ func execScript(c *Carrier, sc *Script, prep func(*Run)) (*Run, bool, string) {
 	}
 	ok, dump := run.Exec(c.CC, nil, watchdog)
 	if !ok {
+		// slow, or parked for good? (sampled before anything is cancelled)
+		done := make(chan struct{})
+		_, run.Stuck, _ = waitDoneOrStuck(done, 10*time.Second)
 		run.Cancel()
 		run.ReleaseAll()
 	} else {
@@ -221,7 +224,38 @@ func execScript(c *Carrier, sc *Script, prep func(*Run)) (*Run, bool, string) {
 	}
 	c.Svc.Forget(run)
 	return run, ok, dump
-}
+	}
+
+	// reachProblem: a script that reaches its handler over the standard transport must reach it on every carrier;
+	// a call that fails before any handler ran leaves the other oracles nothing to judge and must not pass for that.
+	func reachProblem(cs *carrierSet, c *Carrier, sc *Script, run *Run) string {
+	if run.hStarted.Load() > 0 {
+		return ""
+	}
+	out := run.ClientOutcome()
+	if !out.Seen || out.OK {
+		return ""
+	}
+	ref, ok, _ := execScript(cs.ref, sc, nil)
+	if !ok || ref.hStarted.Load() == 0 {
+		return ""
+	}
+	return fmt.Sprintf("the call failed (%v) without ever reaching the handler; over the standard transport the same script reaches it", out.Err)
+	}
+
+	// hangVerdict judges a run that hit the watchdog: parked for good on a script the standard transport completes
+	// is a violation (nothing was delivered, no status ever arrived); anything else stays inconclusive.
+	func hangVerdict(e *core.Env, prop string, cs *carrierSet, c *Carrier, sc *Script, run *Run, dump string) {
+	if run.Stuck {
+		if _, ok, _ := execScript(cs.ref, sc, nil); ok {
+			w := witness(run)
+			w["goroutines"] = trunc(dump, 20000)
+			e.Violate(fmt.Sprintf("%s/%s/never-completes", c.Name, kindClass(sc.Kind)), fmt.Sprintf("the call never completed: client and server goroutines are parked for good (script %s completes over the standard transport)", sc.Shape()), w)
+			return
+		}
+	}
+	e.Inconclusive("%s %s %s: run did not finish within the watchdog", prop, c.Name, sc.Shape())
+	}
 
 type carrierSet struct {
 	ref  *Carrier
@@ -255,10 +289,13 @@ func checkC01(e *core.Env) {
 	defer cs.Close()
 
 	runOne := func(c *Carrier, sc *Script) {
-		run, ok, _ := execScript(c, sc, nil)
+		run, ok, dump := execScript(c, sc, nil)
 		if !ok {
-			e.Inconclusive("C01 %s %s: run did not finish within the watchdog", c.Name, sc.Shape())
+			hangVerdict(e, "C01", cs, c, sc, run, dump)
 			return
+		}
+		if p := reachProblem(cs, c, sc, run); p != "" {
+			e.Violate(fmt.Sprintf("delivery/%s/%s/never-reached-handler", c.Name, sc.Kind), p, witness(run))
 		}
 		nmsg := len(run.Rets("h", "recv")) + len(run.Rets("cr", "recv")) + len(run.Rets("cs", "invoke"))
 		e.Eval(c.Name+"|"+sc.Shape(), nmsg > 0)
